@@ -473,6 +473,10 @@ def run_c07(ctx):
             # an exact copy of the packet completing the PID's last table, adjacent to it in one multiplex and behind a null packet in another
             vs.append({'t': 'dupadj', 'pid': pid})
             vs.append({'t': 'dupsep', 'pid': pid})
+        for pid in pids[:3]:
+            # the input ends between two packets of the PID, then goes on
+            vs.append({'t': 'resumeadj', 'pid': pid})
+            vs.append({'t': 'resumesep', 'pid': pid})
         es = sorted({p['pid'] for p in s['pkts'] if p.get('k', '') == '' and p['pid'] >= 0x100 and p['pid'] != 0x1000 and p['pid'] != 0x1001})
         free = [q for q in (0x14, 0x13, 0x12, 0x11, 0x10) if q not in pids]
         if es and free:
